@@ -49,6 +49,9 @@ SPEC = {
     'fopen': dict(ret='ptr', alloc='FILE'),
     'fclose': dict(ret='int', free=('FILE', 0)),
     'fgets': dict(ret='ptr'),
+    # ---- libjwt's own allocator wrappers (jwt-memory.c; checked separately to be malloc/free or the installed pair)
+    'jwt_malloc': dict(ret='ptr', alloc='jwt', routed=True),
+    '__jwt_freemem': dict(ret='void', free=('jwt', 0)),
     # ---- jansson (all allocations routed through json_set_alloc_funcs)
     'json_object': dict(ret='ptr', alloc='json', routed=True, jtype=0),
     'json_array': dict(ret='ptr', alloc='json', routed=True, jtype=1),
@@ -172,6 +175,17 @@ def api_event(st, name, ret, args, node):
     st.trace.append(('api', name, ret, list(args), node_loc(node)))
 
 
+def release_object(it, st, v):
+    """the storage of a released heap object is gone: forget its fields (json values are reference counted:
+    a decref is modelled as a release of the reference, the fields are dropped only for plain buffers)"""
+    if isinstance(v, Ref) and v.loc[0] == 'obj' and v.path == '' and v.loc not in it.roots:
+        for k in [k for k in st.mem if k[0] == v.loc]:
+            del st.mem[k]
+        st.zero.discard(v.loc)
+        if getattr(it.rule, 'track_freed', False):
+            st.ts.setdefault('freed', set()).add(v.loc)
+
+
 def generic(name, spec):
     def h(it, st, args, node):
         rule = it.rule
@@ -186,7 +200,9 @@ def generic(name, spec):
                     rule.on_deref(it, st, args[p], node)
         if st.dead:
             return []
-        seq = len(st.trace)
+        skey = 'seq:%s:%s' % (name, site(node))
+        seq = st.sites.get(skey, 0) + 1
+        st.sites[skey] = seq
         # out-parameters
         for p in spec.get('out', ()):
             if p < len(args) and isinstance(args[p], Ref):
@@ -202,7 +218,9 @@ def generic(name, spec):
         if ret == 'void':
             fr = spec.get('free')
             if fr:
-                st.trace.append(('free', fr[0], args[fr[1]] if fr[1] < len(args) else None, node_loc(node), name))
+                fa = args[fr[1]] if fr[1] < len(args) else None
+                st.trace.append(('free', fr[0], fa, node_loc(node), name))
+                release_object(it, st, fa)
             api_event(st, name, None, args, node)
             return [(st, Int(0))]
         if ret in ('int', 'size'):
@@ -216,7 +234,9 @@ def generic(name, spec):
                 st.cons[t.k] = st.cons.get(t.k, ()) + (('>=', 0),)
             fr = spec.get('free')
             if fr:
-                st.trace.append(('free', fr[0], args[fr[1]] if fr[1] < len(args) else None, node_loc(node), name))
+                fa = args[fr[1]] if fr[1] < len(args) else None
+                st.trace.append(('free', fr[0], fa, node_loc(node), name))
+                release_object(it, st, fa)
             for p in spec.get('takes', ()):
                 if p < len(args):
                     st.trace.append(('sink', name, args[p], node_loc(node)))
@@ -328,7 +348,7 @@ def h_snprintf(it, st, args, node):
         it.rule.on_deref(it, st, dst, node)
     for a in args[3:]:
         pass
-    t = Term(('api', 'snprintf', site(node), len(st.trace)))
+    t = Term(('api', 'snprintf', site(node)))
     return [(st, t)] if not st.dead else []
 
 
@@ -365,7 +385,7 @@ def _str_cmp(exact_name):
             r = Int(0 if ta == tb else (-1 if ta < tb else 1))
             st.trace.append(('strcmp', exact_name, a, b, r, node_loc(node)))
             return [(st, r)]
-        ka, kb = sorted([repr(vkey(a)), repr(vkey(b))])
+        ka, kb = sorted([vkey(a), vkey(b)], key=repr)
         t = Term(('pure', 'streq', ka, kb))
         st.dom[t.k] = (0, 1)
         st.trace.append(('strcmp', exact_name, a, b, t, node_loc(node)))
